@@ -36,6 +36,11 @@ def check(run, only=None):
             for env in ("twig", "core"):
                 cases.append({"id": "C18-fs-%s-%d" % (env, i), "k": "conc", "n": n, "rounds": rounds, "env": env, "loader": "fs",
                               "seed": run.seed * 31 + 7 + i, "dl": 120000, "fresh": True})
+        # a race-free caching loader that hands the same stick.Template to concurrent calls (over the memory and the filesystem loader)
+        for i, (n, rounds) in enumerate([(16, 30), (16, 30)] if not thorough else [(16, 200)] * 4):
+            for env in ("twig", "core"):
+                cases.append({"id": "C18-cache-%s-%d" % (env, i), "k": "conc", "n": n, "rounds": rounds, "env": env, "cache": True,
+                              "loader": "fs" if i % 2 == 0 else "", "seed": run.seed * 31 + 11 + i, "dl": 120000, "fresh": True})
         # the schedule "every caller is inside Execute at once" (all pc = "print" in C18.tla), forced with a blocking user
         # function as scheduler gate: 64 callers x 3 nested includes
         for i, (n, rounds) in enumerate([(64, 9), (17, 18)] if not thorough else [(64, 45), (128, 18), (33, 36)]):
